@@ -86,24 +86,7 @@ class Slice(NullCell):
         return bytes_
 
     def preload_address(self) -> typing.Union[Address, ExternalAddress, None]:
-        rem = self.preload_uint(2)
-        if not rem:
-            return None
-        if rem == 1:
-            len_ = int(self.preload_bits(11)[2:].to01(), 2)
-            addr = int(self.preload_bits(11 + len_)[11:].to01(), 2)
-            return ExternalAddress(addr, len_)
-        if rem != 2:
-            raise SliceError('Unsupported address type')
-        if self.preload_uint(3) % 2:
-            raise SliceError('Unsupported anycast in preload_address')
-
-        rem = self.preload_bits(267)
-
-        wc = ba2int(rem[3:11], signed=True)
-        hash_part = rem[11:].tobytes()
-
-        return Address((wc, hash_part))
+        return self.copy().load_address()
 
     def load_address(self) -> typing.Union[Address, ExternalAddress, None]:
         tag = self.load_uint(2)
